@@ -46,6 +46,10 @@ def make_jobs(tier):
                 for algo in algos:
                     jobs.append({"kind": "data", "flavour": flavour, "side": side, "entry": entry, "algo": algo})
             jobs.append({"kind": "keys", "flavour": flavour, "side": side})
+    for flavour, side in (("sync", "s"), ("astd", "a"), ("tok", "a")):
+        for entry in ("oneshot", "hash", "session", "session_declared"):
+            for n in ((5, 4097) if tier == "quick" else (5, 4097, ref.MIB + 1)):
+                jobs.append({"kind": "short", "flavour": flavour, "side": side, "entry": entry, "n": n})
     return jobs
 
 
@@ -109,7 +113,104 @@ def _short(rep):
     return s if len(s) < 400 else s[:400] + "..."
 
 
+def short_program(entry, side, cache, n, tag, sri):
+    s = side == "s"
+    suf = "_sync" if s else ""
+    g = {"gen": [n, tag]}
+    h = {"ref": 0}
+    key = "short-key"
+    if entry == "oneshot":
+        w = [{"op": "write" + suf, "cache": cache, "key": key, "data": g}]
+    elif entry == "hash":
+        w = [{"op": "write_hash" + suf, "cache": cache, "data": g}]
+        key = None
+    elif entry in ("session", "session_declared"):
+        opts = {"size": n} if entry == "session_declared" else {}
+        half = n // 2
+        w = [{"op": ("sw_" if s else "aw_") + "open", "cache": cache, "key": key, "opts": opts}, {"op": "w_write_all", "h": h, "data": {"gen": [n, tag, 0, half]}},
+             {"op": "w_write_all", "h": h, "data": {"gen": [n, tag, half, n - half]}}, {"op": "w_commit", "h": h}]
+    r = [{"op": "read_hash" + suf, "cache": cache, "sri": sri}]
+    if key is not None:
+        r.append({"op": "read" + suf, "cache": cache, "key": key})
+        r.append({"op": ("sr_" if s else "ar_") + "open", "cache": cache, "key": key})
+        r.append({"op": "r_stream", "h": {"ref": len(w) + 2}, "n": 1000})
+    return w, r, key
+
+
+def short_worker(ctx, job):
+    """Environment answers a healthy POSIX file system may legally give: every write/read of the operation
+    is answered short (no error), one deviation per execution (thorough: two)."""
+    import json as _json
+    from vlib import fsx
+    res = V.new()
+    flavour, side, entry, n = job["flavour"], job["side"], job["entry"], job["n"]
+    tag = 23
+    data = ref.gen(n, tag)
+    want = ctx.sri("sha256", data)
+    cache = ctx.path("c02-short-cache")
+    w, r, key = short_program(entry, side, cache, n, tag, want)
+    pf = ctx.path("prog-c02s.json")
+    with open(pf, "w") as fh:
+        _json.dump(w + r, fh)
+
+    def run_one(faults):
+        fsutil.wipe(cache)
+        return fsx.run({"roots": [cache], "actors": [fsx.actor(flavour, "S", pf)], "timeout_ms": 30000, "faults": faults}, ctx.dir)
+
+    probe = run_one([])
+    steps = [s for s in probe["steps"] if s.get("step") is not None]
+    singles = []
+    for i, st in enumerate(steps):
+        if st["sys"] in ("write", "pwrite64", "read", "pread64") and st["len"] > 1:
+            for t in fsx.short_lengths(st["len"]):
+                singles.append({"step": i, "short": t, "sysname": st["sys"]})
+    sets = [[]] + [[f] for f in singles]
+    if ctx.tier != "quick":
+        wr_singles = [f for f in singles if f["sysname"] in ("write", "pwrite64")]
+        for a in wr_singles:
+            for b in singles:
+                if b["step"] > a["step"]:
+                    sets.append([a, b])
+    for faults in sets:
+        rep = run_one(faults)
+        res["evals"] += 1
+        fdesc = "+".join("%s@%d->%d" % (f["sysname"], f["step"], f["short"]) for f in faults) or "none"
+        fclass = "+".join("short-%s" % f["sysname"] for f in faults) or "none"
+        res["distinct"].add(V.h("short", flavour, side, entry, n, fdesc))
+        replay = {"engine": "fsx", "mode": "short", "flavour": flavour, "side": side, "entry": entry, "n": n, "tag": tag, "faults": faults}
+        sig = "short:%s/%s:%s" % (entry, side, fclass)
+        if rep["status"] != "ok":
+            V.violation(res, sig + ":" + rep["status"], "execution under short answers %s: %s" % (fdesc, rep["status"]), replay)
+            continue
+        out = fsx.replies(rep, 0)
+        wrep = out[len(w) - 1] if len(out) >= len(w) else (out[-1] if out else {"missing": True})
+        V.outcome(res, "short:" + classify(wrep))
+        if wrep.get("ok") != want:
+            kind = classify(wrep) if "ok" not in wrep else "wrong-digest"
+            V.violation(res, "%s:%s" % (sig, kind), "with a legal short answer (%s) the write replied %s, true digest is %s" % (fdesc, _short(wrep), want), replay)
+            # C03's invariant on the resulting tree is judged below as well
+        snap = fsutil.snapshot(cache) or {}
+        for rel, e in snap.items():
+            if rel.startswith(ref.CONTENT_DIR + "/") and e[0] == "f" and ref.content_path_ok(rel, e[1], ctx.xxh3) is False:
+                V.violation(res, sig + ":content-file-not-matching-address", "short answer %s: content file %s (%d bytes) does not hash to its address" % (fdesc, rel, len(e[1])), replay)
+        if wrep.get("ok") == want:
+            for rr in out[len(w):]:
+                d = rr.get("ok")
+                if isinstance(d, dict) and "data" in d:
+                    d = d["data"]
+                if isinstance(d, dict) and "h" in d:
+                    continue
+                if not (isinstance(d, dict) and wr.data_matches(d, data)):
+                    V.violation(res, sig + ":readback:" + (classify(rr) if "ok" not in rr else "wrong-bytes"), "short answer %s: read back gave %s" % (fdesc, _short(rr)), replay)
+                    break
+    fsutil.wipe(cache)
+    res["samples"].append({"kind": "short", "flavour": flavour, "side": side, "entry": entry, "n": n, "short_answer_sets": len(sets), "example": sets[len(sets) // 2]})
+    return res
+
+
 def worker(ctx, job):
+    if job.get("kind") == "short":
+        return short_worker(ctx, job)
     res = V.new()
     flavour, side = job["flavour"], job["side"]
     srv = ctx.srv(flavour)
